@@ -70,7 +70,7 @@ CLAIMS["C08"] = dict(
     note="Trusted: TLC, harness ScheduledReader (BufRead contract), Beatmap's PartialEq plus expected_dist comparison.")
 CLAIMS["C09"] = dict(
     category="fault_enumeration", design_ref="DESIGN.md section 4, C09",
-    technique="TLA+ spec Reader with a fault environment (failure at any offset x kind, Interrupted budget): invariant ErrorProvenance and liveness FaultSurfaces/Terminates checked by TLC; replay through a faulting BufRead; systematic fault injection at every read offset and every write offset of real files (FaultWriter: error kinds, zero-length writes, short writes, Interrupted, flush failure); Writer.tla (the Write object as environment of write_all/flush) with every script of per-call answers (incl. a transient Interrupted from flush) replayed into Beatmap::encode; schedules with interruptions compared with the same chunks without them; the model's fault kind concretised as ten different io::ErrorKinds",
+    technique="TLA+ spec Reader with a fault environment (failure at any offset x kind, Interrupted budget): invariant ErrorProvenance and liveness FaultSurfaces/Terminates checked by TLC; replay through a faulting BufRead; systematic fault injection at every read offset and every write offset of real files (FaultWriter: error kinds, zero-length writes, short writes, Interrupted, flush failure); Writer.tla (the Write object as environment of write_all/flush) with every script of per-call answers (incl. a transient Interrupted from flush) replayed into Beatmap::encode; schedules with interruptions compared with the same chunks without them; Apalache inductive-invariant check of the writer-side invariants for every total length / acceptance / interruption count (spec/apalache/WriterInd.tla, with a negative control); the model's fault kind concretised as ten different io::ErrorKinds",
     text="On the model TLC enumerates every fault offset and kind under every schedule and checks that decoding ends with exactly that error iff the fault is reached, that Interrupted never surfaces and that no error appears without a reader failure; the real code is replayed on those behaviours, and on bundled/random files a fault is injected at every byte offset (sampled for large files) x five kinds on read and at every output offset on write (hard error, zero-length write), with short writes and Interrupted writes required to be transparent and a flush failure required to be returned.",
     note="Fault enumeration is exhaustive on the model's short files and on small real files; large files use sampled offsets. The write side is bound by injection only (no TLA+ model of std's write_all).")
 CLAIMS["C10"] = dict(
